@@ -51,6 +51,15 @@ func vpFollowingInstance(H time.Duration, mod func(cfg *ElectionConfig)) *vpFoll
 // must stay leader with the same token for the whole horizon (>= 2 heartbeats).
 func vpH_C07_T_leftover() { vpC07Leftover(true) }
 
+// takeover-enabled instance next to an owner it cannot preempt, store operations taking 30ms: the operations of
+// its concurrent acquisition rounds overlap in time
+func vpH_C07_T_leftover_takeover() {
+	vpC07Takeover = true
+	vpC07Leftover(true)
+}
+
+var vpC07Takeover bool
+
 // the same with every random jitter/backoff draw symbolic (thorough tier)
 func vpH_C07_T_leftover_symrand() { vpC07Leftover(false) }
 
@@ -59,7 +68,8 @@ func vpC07Leftover(fixedRand bool) {
 	if fixedRand {
 		vpSetOpt("rand-fixed", 1) // rand.Float64() = 0.5: jitter 55ms, backoffs 50/100/200ms exactly
 	}
-	takeover := fixedRand && vpChoose("takeover-enabled", 2) == 1
+	takeover := vpC07Takeover
+	vpC07Takeover = false
 	vpOtherPrio = 0
 	if takeover {
 		vpOtherPrio = 9 // the owner cannot be preempted by the instance (priority 5): it has to wait for the vacancy
